@@ -46,7 +46,7 @@ type simTask struct {
 }
 
 type simCluster struct {
-	cfg *cfgShadow // membership-changing runs checked against Abs/CfgRaft.v (no crashes, no snapshots, no cut requests)
+	cfg *cfgShadow // membership-changing runs checked against Abs/CfgRaft.v (crashes included; no snapshots, no cut requests)
 	lastInstall *simMsg // the install-snapshot request delivered last (a copy marked as duplicate)
 	rnd    *rand.Rand
 	w      *caseWriter
